@@ -108,6 +108,11 @@ func New(opts ...Option) *Server {
 	for _, opt := range opts {
 		opt(cfg)
 	}
+	// a server without any EnableSecurity option is an unsecured server: it
+	// advertises the None/None endpoint that it accepts
+	if len(cfg.enabledSec) == 0 {
+		cfg.enabledSec = append(cfg.enabledSec, security{secPolicy: ua.SecurityPolicyURINone, secMode: ua.MessageSecurityModeNone})
+	}
 	url := ""
 	if len(cfg.endpoints) != 0 {
 		url = cfg.endpoints[0]
